@@ -15,6 +15,7 @@ def op(name, params, serial, results, code, wire, zero_from, accept_extra="", re
     out.append(f"//@   params u, {', '.join(params)}")
     out.append(f"//@   returns ({', '.join(results)})")
     out.append(f"//@   requires client: u != nil && u.driver != nil{requires_extra}")
+    out.append("//@   modifies sent.n, sent.kind, sent.iplen, sent.ipb, sent.port, sent.bytes, recv.n, recv.len, recv.bytes")
     out.append("//@   define N0 = old(sent.n)")
     out.append("//@   define B = sent.bytes[N0]")
     out.append("//@   define R = recv.bytes[old(recv.n)]")
